@@ -128,7 +128,14 @@ Inductive case :=
             (multi : option (list string * option (nat * obs)))       (* candidates in the method's order; the command *)
             (filters : list (list ccand * reqs * list string * option (list string)))   (* filterOutSameInstanceType *)
 | CaseEmpty (cands : list ccand) (selected : list string)
-| CaseValidate (nrepl : nat) (repl : list string) (cat : list itype) (s : csim) (valid : bool).
+| CaseValidate (nrepl : nat) (repl : list string) (cat : list itype) (s : csim) (valid : bool)
+(* the real Validate after the TTL, the world having moved on; everything is observed at validation time *)
+| CaseValidated (nrepl : nat) (repl : list string) (cat : list itype)
+                (present nominated budget_ok : bool)      (* all proposed candidates are candidates now / one is nominated / budgets allow *)
+                (s : csim)                                 (* the harness's simulation over the CURRENT candidates *)
+                (expect : list Z)                          (* reschedulable pods bound to the candidate nodes NOW (from the API) *)
+                (accepted : bool)
+| CaseEmptyValidated (proposed : list string) (current : list (ccand * bool)) (out : option (list string)).
 
 Definition price_eqb (a b : price) : bool := optZ_eqb a b.
 
@@ -233,6 +240,23 @@ Definition check_case (c : case) : list string :=
       (if empty_b (filter (fun c => mem (c_name c) selected) mc) then [] else ["oracle:empty_means_no_positive_cost"])
   | CaseValidate nrepl repl cat s valid =>
       if Bool.eqb (validate_command nrepl repl (to_sim cat s)) valid then [] else ["corr:validate_command"]
+  | CaseValidated nrepl repl cat present nominated budget_ok s expect accepted =>
+      (if Bool.eqb (validate present nominated budget_ok nrepl repl (to_sim cat s)) accepted then [] else ["corr:validate"]) ++
+      (if negb accepted ||
+          home_b (mkObs (if Nat.eqb nrepl 0 then ODelete else OReplace [] repl) (cs_pods s) (length (cs_new s)) expect)
+       then [] else ["oracle:pods_have_home"])
+  | CaseEmptyValidated proposed current out =>
+      let cur := map (fun cn : ccand * bool => (to_cand [] (fst cn), snd cn)) current in
+      (match validate_empty proposed cur, out with
+       | None, None => []
+       | Some a, Some b => if set_eqb a b then [] else ["corr:validate_empty"]
+       | _, _ => ["corr:validate_empty"]
+       end) ++
+      (match out with
+       | Some names => if empty_b (filter (fun c => mem (c_name c) names) (map fst cur)) && forallb (fun n => mem n (map (fun cn => c_name (fst cn)) cur)) names
+                       then [] else ["oracle:empty_means_no_positive_cost"]
+       | None => []
+       end)
   end.
 
 Definition check_all (cs : list (Z * case)) : list (Z * string) :=
